@@ -321,6 +321,12 @@ func (g *Group) Search(prefix string, cmp SearchFunc) (*GroupReader, bool, error
 		}
 		foundIndex, line, err := scanNext(r, prefix)
 		r.Close()
+		if err == io.EOF {
+			// No line with the prefix from this file to the end of the group (the head was rotated
+			// after the last such line was written): whatever we look for is in an earlier file.
+			maxIndex = curIndex - 1
+			continue
+		}
 		if err != nil {
 			return nil, false, err
 		}
